@@ -266,4 +266,90 @@ theorem rewindStep_order (c : StepCfg) (ss : StepState) (now : Int) :
     apply List.map_congr_left; intro x _; rfl
   rw [this]
 
+/-! ### a second rewind: steps with at most one worker -/
+
+theorem drain_full (step nw : Nat) (now : Int) : ∀ (fuel : Nat) (ss : StepState), nw ≤ ss.inProg.length →
+    drain step nw now fuel ss = (ss, [])
+  | 0, ss, _ => by simp [drain]
+  | fuel + 1, ss, h => by
+    unfold drain
+    cases hq : ss.queue with
+    | nil => rfl
+    | cons a q =>
+      simp only
+      have : ¬ ss.inProg.length < nw := by omega
+      simp [this]
+
+/-- the in-progress row `_add_or_enqueue_event` creates on worker `id` -/
+def startRow (att : Attempt) (ss : StepState) (id : Nat) (now : Int) : InProg :=
+  { ev := att.ev, wid := id, snapEvents := ss.collected, snapWaiters := ss.waiters,
+    attempts := orNat att.attempts 0, firstAt := orInt att.firstAt now,
+    lastExc := att.lastExc, lastFailedAt := att.lastFailedAt, rc := att.rc }
+
+/-- `rewind_in_progress` of a step with one worker: the first pending invocation runs on worker 0 -/
+theorem rewindStep_one (c : StepCfg) (hc : c.numWorkers = 1) (ss : StepState) (now : Int) :
+    (rewindStep c ss now).1 =
+      match (ss.inProg.map inProgToAttempt).reverse ++ ss.queue with
+      | [] => { ss with queue := [], inProg := [] }
+      | a :: q => { ss with queue := q, inProg := [startRow a ss 0 now] } := by
+  unfold rewindStep
+  simp only [hc]
+  cases hq : (ss.inProg.map inProgToAttempt).reverse ++ ss.queue with
+  | nil => simp [drain]
+  | cons a q =>
+    simp only [List.length_cons]
+    unfold drain
+    simp only [List.length_nil, Nat.lt_one_iff, if_true]
+    have h1 : addOrEnqueue a c.name { ss with queue := q, inProg := [] } 1 now =
+        ({ ss with queue := q, inProg := [startRow a ss 0 now] },
+          [.runWorker c.name a.ev 0, .publish (.stepState .running c.name a.ev.ty .unset (some 0))]) := by
+      simp [addOrEnqueue, freeIds, usedIds, startRow, List.range, List.range.loop]
+    rw [h1]
+    simp only
+    rw [drain_full _ _ _ _ _ (by simp)]
+
+theorem rewindStep_zero (c : StepCfg) (hc : c.numWorkers = 0) (ss : StepState) (now : Int) :
+    (rewindStep c ss now).1 = { ss with queue := (ss.inProg.map inProgToAttempt).reverse ++ ss.queue, inProg := [] } := by
+  unfold rewindStep
+  simp only [hc]
+  rw [drain_full _ _ _ _ _ (by simp)]
+
+theorem orNat_some_zero (v : Nat) : orNat (some v) 0 = v := by
+  simp only [orNat]; split <;> simp_all
+
+/-- a second rewind of a step with at most one worker changes nothing but `first_attempt_at` -/
+theorem rewindStep_idem (c : StepCfg) (hc : c.numWorkers ≤ 1) (ss : StepState) (n n' : Int) :
+    SimSS (rewindStep c (rewindStep c ss n).1 n').1 (rewindStep c ss n).1 := by
+  have h01 : c.numWorkers = 0 ∨ c.numWorkers = 1 := by omega
+  rcases h01 with h0 | h1
+  · rw [rewindStep_zero c h0 (rewindStep c ss n).1 n', rewindStep_zero c h0 ss n]
+    simp only [List.map_nil, List.reverse_nil, List.nil_append]
+    exact SimSS.refl _
+  · rw [rewindStep_one c h1 (rewindStep c ss n).1 n', rewindStep_one c h1 ss n]
+    cases hq : (ss.inProg.map inProgToAttempt).reverse ++ ss.queue with
+    | nil => simp only [List.map_nil, List.reverse_nil, List.nil_append]; exact SimSS.refl _
+    | cons a q =>
+      simp only [List.map_cons, List.map_nil, List.reverse_cons, List.reverse_nil, List.nil_append, List.singleton_append]
+      refine ⟨rfl, rfl, rfl, ?_⟩
+      simp [eraseIP, startRow, inProgToAttempt, orNat_some_zero]
+
+
+/-- **second rewind, whole state**: when no step has more than one worker -/
+theorem rewind_idem_single (cfg : Cfg) (hwf : cfg.WF) (h1 : ∀ c ∈ cfg.steps, c.numWorkers ≤ 1) (st : State) (n n' : Int) :
+    SimSt (rewind cfg (rewind cfg st n).1 n').1 (rewind cfg st n).1 := by
+  have hnd : ((sortedSteps cfg).map (·.name)).Nodup := (sortedSteps_names_perm cfg).nodup_iff.mpr hwf
+  refine ⟨rewindLoop_running n' _ _ _, fun k => ?_⟩
+  by_cases hk : k ∈ (sortedSteps cfg).map (·.name)
+  · obtain ⟨c, hc, rfl⟩ := List.mem_map.mp hk
+    have e1 : (rewind cfg (rewind cfg st n).1 n').1.workers c.name =
+        (rewindStep c ((rewind cfg st n).1.workers c.name) n').1 := rewindLoop_at n' (sortedSteps cfg) _ [] hnd c hc
+    have e2 : (rewind cfg st n).1.workers c.name = (rewindStep c (st.workers c.name) n).1 :=
+      rewindLoop_at n (sortedSteps cfg) st [] hnd c hc
+    rw [e1, e2]
+    exact rewindStep_idem c (h1 c (mem_sortedSteps_iff.mp hc)) _ n n'
+  · have e1 : (rewind cfg (rewind cfg st n).1 n').1.workers k = (rewind cfg st n).1.workers k :=
+      rewindLoop_other n' (sortedSteps cfg) _ [] k hk
+    rw [e1]
+    exact SimSS.refl _
+
 end Engine
